@@ -7,6 +7,7 @@ use std::panic::{catch_unwind, AssertUnwindSafe};
 use vcommon::*;
 
 mod cache;
+mod xcompile;
 mod calls;
 
 fn mvs(v: &Value) -> Vec<MV> {
@@ -22,6 +23,15 @@ fn main() {
         let mut f = std::fs::OpenOptions::new().create(true).append(true).open(&args[5]).expect("out");
         writeln!(f, "{}", o).unwrap();
         // threads may be stuck if the run hung: leave without joining them
+        std::process::exit(0);
+    }
+    if args.len() >= 5 && args[1] == "xcompile" {
+        // abi xcompile <plugin.so> <label> <out>   (C11: a separately compiled implementation)
+        std::panic::set_hook(Box::new(|_| {}));
+        let mut f = std::fs::File::create(&args[4]).expect("out");
+        for o in xcompile::run(&args[2], &args[3]) {
+            writeln!(f, "{}", o).unwrap();
+        }
         std::process::exit(0);
     }
     if args.len() >= 4 && args[1] == "sched" {
